@@ -67,7 +67,7 @@ Section Mono.
     destruct g' as [|g']; [lia|]. cbn [read_sequence] in *.
     destruct (input st) as [|t0 r0]; [exact H|]. destruct (is_elem t0); [exact H|].
     destruct (macro_name t0) as [nm|].
-    - destruct (lookup st nm) as [[a b|n o b|p|k|k|k b0|b0]|]; try exact H.
+    - destruct (lookup st nm) as [[a b|n o b|p|k|k|k b0|b0|z0]|]; try exact H.
       + destruct (definition_invoke a b r0); [apply IH; [lia|exact H]|exact H].
       + destruct (newcommand_invoke n o b r0); [apply IH; [lia|exact H]|exact H].
     - destruct (text1 t0) as [c|]; [|exact H].
@@ -86,10 +86,19 @@ Section Mono.
     apply bind_ret in H4 as ([cs st3] & H5 & H6). rewrite (read_sequence_mono _ _ _ _ _ Hg H5). cbn [bind]. exact H6.
   Qed.
 
+  Lemma int_arg_mono g g' st r : (g <= g')%nat -> int_arg nx g st = Ret r -> int_arg nx' g' st = Ret r.
+  Proof.
+    intros Hg H. unfold int_arg in *. destruct (read_token (input (ros st))) as [[toks|] r0]; [|exact H].
+    destruct (forallb plainchar toks); [|exact H].
+    apply bind_ret in H as ([z stz] & H1 & H2). rewrite (read_integer_mono _ _ _ _ Hg H1). exact H2.
+  Qed.
+
   Lemma invoke_mono g g' nm m st r : (g <= g')%nat ->
     invoke nx g nm m st = Ret r -> invoke nx' g' nm m st = Ret r.
   Proof.
-    intros Hg H. destruct m as [a b|na o b|p|k|k|k b0|b0]; try exact H. destruct p; try exact H.
+    intros Hg H. destruct m as [a b|na o b|p|k|k|k b0|b0|z0]; try exact H. destruct p; try exact H.
+    5, 6: (cbn [invoke] in *; apply bind_ret in H as ([nme st1] & H1 & H2); rewrite H1; cbn [bind];
+           apply bind_ret in H2 as ([z st2] & H3 & H4); rewrite (int_arg_mono _ _ _ _ Hg H3); exact H4).
     4: { cbn [invoke] in *. apply bind_ret in H as ([z st1] & H1 & H2). rewrite (read_integer_mono _ _ _ _ Hg H1). exact H2. }
     3: { cbn [invoke] in *. unfold newcommand_def in *.
          destruct (input (ros st)) as [|t0 r0]; [exact H|]. destruct (is_elem t0); [exact H|].
@@ -348,7 +357,7 @@ Qed.
 
 Lemma walks_test2 t k : f2_test t = true -> walks (print_test t) k (S k).
 Proof.
-  apply walks_test.
+  destruct t; try (apply walks_test); try discriminate. intros _. apply walks_if. reflexivity.
 Qed.
 
 Lemma walks_print :
@@ -557,7 +566,7 @@ Section Numbers.
     - cbn [map app read_sequence input]. rewrite app_nil_r. destruct Hs as (He & [(Hm & c & Ht & Hc & Hsp)|(nm & Hm & Hl)]).
       + rewrite He, Hm, Ht. unfold isdig in Hc. rewrite Hc, Hsp. reflexivity.
       + unfold lookup. cbn [ups bottom]. rewrite He, Hm.
-        destruct (chain_get U B nm) as [[a b|n o b|p|k|k|k b0|b0]|]; try contradiction; reflexivity.
+        destruct (chain_get U B nm) as [[a b|n o b|p|k|k|k b0|b0|z0]|]; try contradiction; reflexivity.
     - cbn [map app read_sequence input]. change (is_elem (other c)) with false.
       change (macro_name (other c)) with (@None (list N)). change (text1 (other c)) with (Some c). cbn iota.
       inversion Hd as [|c' ds' Hc Hd']; subst. unfold isdig in Hc. rewrite Hc. unfold set_input. cbn [input ups bottom].
@@ -1710,6 +1719,10 @@ Section Subst.
       + cbn [fb_node] in H. apply andb_true_iff in H as [H1 H2]. apply Nat.leb_le in H1, H2. split.
         * rewrite print_param. apply xp_param. lia.
         * apply nth_args_A.
+      + split; [|reflexivity]. cbn [sbn print]. rewrite app_nil_r. apply xp_tok, inert_esc.
+        unfold setname, sname. destruct b; cbn; congruence.
+      + split; [|reflexivity]. cbn [sbn print]. rewrite app_nil_r. apply xp_toks.
+        constructor; [apply inert_esc; cbv; congruence|]. constructor; [apply inert_esc; unfold ifname, sname; congruence|constructor].
     - intros b IH d H. cbn [fb_node] in H. destruct d as [|d]; [discriminate H|].
       destruct (Q_list b d IH H) as [H1 H2]. split.
       + cbn [sbn print]. rewrite print_group, app_nil_r, print_group.
@@ -1952,6 +1965,7 @@ Proof.
     + destruct a as [a|]; [|discriminate Ht]. destruct b as [b|]; [|discriminate Ht].
       eexists _, _. split; [reflexivity|split; reflexivity].
     + destruct a as [a|]; [|discriminate Ht]. eexists _, _. split; [reflexivity|split; reflexivity].
+    + eexists _, _. split; [reflexivity|split; reflexivity].
   - cbn [w_node] in H. apply andb_true_iff in H as [H _]. apply andb_true_iff in H as [Hh _].
     destruct (case_head_inv _ _ Hh) as (z & b0 & r & -> & -> & Hz).
     eexists _, _. split; [apply print_case_node|split; reflexivity].
@@ -2076,7 +2090,7 @@ Proof.
   rewrite (read_group_app body O [] (eg :: r) O Hb). cbn [read_group]. change (is_bgroup eg) with false. change (is_egroup eg) with true. cbn iota.
   rewrite app_nil_r, rev_involutive. cbn [ttext esc]. unfold lookup. cbn [ups bottom].
   rewrite nat_N_Z, Nat2Z.id.
-  destruct (chain_get U B (mname nm)) as [[a' b'|n' o' b'|p|k|k|k b0|b0]|] eqn:El; try reflexivity; contradiction.
+  destruct (chain_get U B (mname nm)) as [[a' b'|n' o' b'|p|k|k|k b0|b0|z0]|] eqn:El; try reflexivity; contradiction.
 Qed.
 
 (* ---- \ifcase ---- *)
@@ -2100,6 +2114,20 @@ Section Unfold3.
     | None => true
     end.
   Proof. cbn [gsafe]. rewrite Hs. reflexivity. Qed.
+  Definition with_switches (e0 : env) (sws : list (Z * bool)) : env :=
+    {| frames := frames e0; counters := counters e0; switches := sws; steps := steps e0 |}.
+  Definition new_switch (sw : Z) (sws : list (Z * bool)) : list (Z * bool) :=
+    match alookup sw sws with Some _ => sws | None => aset sw false sws end.
+  Lemma eval_setsw sw b : eval (S f) e out (NSetSwitch sw b :: rest) = eval f (with_switches e1 (aset sw b (switches e1))) out rest.
+  Proof. cbn [eval]. now rewrite Hs. Qed.
+  Lemma gsafe_setsw sw b : gsafe (S f) e out (NSetSwitch sw b :: rest) =
+    (match alookup sw (switches e1) with Some _ => true | None => false end) &&
+    gsafe f (with_switches e1 (aset sw b (switches e1))) out rest.
+  Proof. cbn [gsafe]. now rewrite Hs. Qed.
+  Lemma eval_newsw sw : eval (S f) e out (NNewSwitch sw :: rest) = eval f (with_switches e1 (new_switch sw (switches e1))) out rest.
+  Proof. cbn [eval]. now rewrite Hs. Qed.
+  Lemma gsafe_newsw sw : gsafe (S f) e out (NNewSwitch sw :: rest) = gsafe f (with_switches e1 (new_switch sw (switches e1))) out rest.
+  Proof. cbn [gsafe]. now rewrite Hs. Qed.
   Lemma gsafe_case z bs el : gsafe (S f) e out (NCase (OLit z) bs el :: rest) =
     gsafe f e1 out (case_branch z bs el) &&
     match eval f e1 out (case_branch z bs el) with Ok e' out' => gsafe f e' out' rest | _ => true end.
@@ -2209,17 +2237,153 @@ Proof.
     eapply (ex_yield O); [apply step_elem; reflexivity|apply ex_refl].
 Qed.
 
+(* ---- switches (\newif) ---- *)
+Definition cellkey (n : N) (sw : Z) : list N := 0 :: n :: ifname sw.
+Definition SwR (sws : list (Z * bool)) (B : Engine.frame) : Prop :=
+  forall sw, match alookup sw sws with
+             | Some b => exists n,
+                 findm (ifname sw) B = Some (MIf (cellkey n sw)) /\
+                 findm (setname sw true) B = Some (MIfSet (cellkey n sw) true) /\
+                 findm (setname sw false) B = Some (MIfSet (cellkey n sw) false) /\
+                 findm (cellkey n sw) B = Some (MCell b)
+             | None => findm (ifname sw) B = None
+             end.
+
+Lemma ifname_inj a b : ifname a = ifname b -> a = b.
+Proof. unfold ifname, sname. intros H. apply zcode_inj. congruence. Qed.
+Lemma zcode_alpha z : Forall (fun c => c = 112 \/ c = 110 \/ c = 97 \/ c = 98) (zcode z).
+Proof. destruct z; cbn [zcode]; [constructor| |]; (constructor; [auto|]); (eapply Forall_impl; [|apply pcode_chars]); intros c [->| ->]; auto. Qed.
+Lemma setname_inj a x b y : setname a x = setname b y -> a = b.
+Proof.
+  unfold setname, sname. intros H. injection H as H. apply zcode_inj.
+  pose proof (zcode_alpha a) as Ha. pose proof (zcode_alpha b) as Hb. revert H Ha Hb.
+  generalize (zcode a) (zcode b). intros l1. induction l1 as [|c l1 IH]; intros l2 H Ha Hb.
+  - destruct l2 as [|d l2]; [reflexivity|]. inversion Hb as [|? ? Hd _]; subst. cbn [app] in H.
+    destruct x, y; cbn in H; injection H as H _; destruct Hd as [->|[->|[->| ->]]]; discriminate H.
+  - destruct l2 as [|d l2].
+    + inversion Ha as [|? ? Hc _]; subst. cbn [app] in H.
+      destruct x, y; cbn in H; injection H as H _; destruct Hc as [->|[->|[->| ->]]]; discriminate H.
+    + cbn [app] in H. injection H as -> H. f_equal. inversion Ha; inversion Hb; subst. now apply IH.
+Qed.
+
+Lemma SwR_init : SwR [] base_frame.
+Proof. intros sw. reflexivity. Qed.
+
+Lemma SwR_add_mname sws B nm v : SwR sws B -> SwR sws ((mname nm, v) :: B).
+Proof.
+  intros H sw. specialize (H sw). destruct (alookup sw sws) as [b|].
+  - destruct H as (n & H1 & H2 & H3 & H4). exists n. cbn [findm].
+    change (seqb (ifname sw) (mname nm)) with false. change (seqb (cellkey n sw) (mname nm)) with false.
+    replace (seqb (setname sw true) (mname nm)) with false by reflexivity.
+    replace (seqb (setname sw false) (mname nm)) with false by reflexivity. cbn iota. auto.
+  - cbn [findm]. change (seqb (ifname sw) (mname nm)) with false. exact H.
+Qed.
+
+Lemma SwR_set sws B sw0 b0 b n0 : SwR sws B -> alookup sw0 sws = Some b0 -> findm (ifname sw0) B = Some (MIf (cellkey n0 sw0)) ->
+  SwR (aset sw0 b sws) ((cellkey n0 sw0, MCell b) :: B).
+Proof.
+  intros H H0 Hk sw. rewrite alookup_aset. destruct (Z.eqb_spec sw sw0) as [->|Hne].
+  - specialize (H sw0). rewrite H0 in H. destruct H as (n & H1 & H2 & H3 & H4).
+    rewrite Hk in H1. injection H1 as E. assert (n = n0) by (unfold cellkey in E; congruence). subst n.
+    exists n0. cbn [findm]. change (seqb (ifname sw0) (cellkey n0 sw0)) with false.
+    replace (seqb (setname sw0 true) (cellkey n0 sw0)) with false by reflexivity.
+    replace (seqb (setname sw0 false) (cellkey n0 sw0)) with false by reflexivity. rewrite seqb_refl. cbn iota. auto.
+  - specialize (H sw). destruct (alookup sw sws) as [bb|].
+    + destruct H as (n & H1 & H2 & H3 & H4). exists n. cbn [findm].
+      change (seqb (ifname sw) (cellkey n0 sw0)) with false.
+      replace (seqb (setname sw true) (cellkey n0 sw0)) with false by reflexivity.
+      replace (seqb (setname sw false) (cellkey n0 sw0)) with false by reflexivity.
+      rewrite (seqb_neq (cellkey n sw) (cellkey n0 sw0)) by (unfold cellkey; intros E; apply Hne, ifname_inj; congruence).
+      cbn iota. auto.
+    + cbn [findm]. change (seqb (ifname sw) (cellkey n0 sw0)) with false. exact H.
+Qed.
+
+Lemma SwR_new sws B sw0 : SwR sws B -> alookup sw0 sws = None ->
+  let key := cellkey (N.of_nat (length B)) sw0 in
+  SwR (aset sw0 false sws)
+      ((key, MCell false) :: (setname sw0 false, MIfSet key false) :: (setname sw0 true, MIfSet key true) :: (ifname sw0, MIf key) :: B).
+Proof.
+  intros H H0 key sw. rewrite alookup_aset. destruct (Z.eqb_spec sw sw0) as [->|Hne].
+  - exists (N.of_nat (length B)). fold key. cbn [findm].
+    change (seqb (ifname sw0) key) with false. replace (seqb (ifname sw0) (setname sw0 false)) with false by reflexivity.
+    replace (seqb (ifname sw0) (setname sw0 true)) with false by reflexivity. rewrite !seqb_refl.
+    replace (seqb (setname sw0 true) key) with false by reflexivity.
+    replace (seqb (setname sw0 false) key) with false by reflexivity.
+    rewrite (seqb_neq (setname sw0 true) (setname sw0 false)) by (unfold setname; intros E; apply app_inv_head in E; discriminate E).
+    cbn iota. auto.
+  - assert (N1 : forall n, seqb (cellkey n sw) key = false) by (intros n; apply seqb_neq; unfold key, cellkey; intros E; apply Hne, ifname_inj; congruence).
+    assert (N2 : forall x y, seqb (setname sw x) (setname sw0 y) = false) by (intros x y; apply seqb_neq; intros E; apply Hne; now apply setname_inj in E).
+    assert (N3 : seqb (ifname sw) (ifname sw0) = false) by (apply seqb_neq; intros E; apply Hne; now apply ifname_inj).
+    specialize (H sw). destruct (alookup sw sws) as [bb|].
+    + destruct H as (n & H1 & H2 & H3 & H4). exists n. cbn [findm].
+      change (seqb (ifname sw) key) with false. replace (seqb (ifname sw) (setname sw0 false)) with false by reflexivity.
+      replace (seqb (ifname sw) (setname sw0 true)) with false by reflexivity. rewrite N3, !N2, N1.
+      replace (seqb (setname sw true) key) with false by reflexivity. replace (seqb (setname sw false) key) with false by reflexivity.
+      replace (seqb (setname sw true) (ifname sw0)) with false by reflexivity. replace (seqb (setname sw false) (ifname sw0)) with false by reflexivity.
+      replace (seqb (cellkey n sw) (setname sw0 false)) with false by reflexivity. replace (seqb (cellkey n sw) (setname sw0 true)) with false by reflexivity.
+      change (seqb (cellkey n sw) (ifname sw0)) with false. cbn iota. auto.
+    + cbn [findm]. change (seqb (ifname sw) key) with false. replace (seqb (ifname sw) (setname sw0 false)) with false by reflexivity.
+      replace (seqb (ifname sw) (setname sw0 true)) with false by reflexivity. rewrite N3. exact H.
+Qed.
+
+Lemma Rfg_nonmname G fs U B k : Rfg G fs U B -> (forall id, k <> mname id) -> chain_get U B k = findm k B.
+Proof.
+  intros (mfs & mg & -> & HF & _ & _) Hk. induction HF as [|mf ef mfs U [_ H2] _ IH]; [reflexivity|].
+  cbn [chain_get]. now rewrite (H2 k Hk).
+Qed.
+Lemma ifname_not_mname sw id : ifname sw <> mname id. Proof. unfold ifname, mname. discriminate. Qed.
+Lemma setname_not_mname sw b id : setname sw b <> mname id. Proof. unfold setname, sname, mname. cbn. discriminate. Qed.
+
+Lemma exec_newif G fs U B sw r : Rfg G fs U B ->
+  exec (St (esc s_newif :: esc (ifname sw) :: r) U B) [prim_elem PNewif]
+       (St r U (match findm (ifname sw) B with
+                | Some _ => B
+                | None => let key := cellkey (N.of_nat (length B)) sw in
+                          (key, MCell false) :: (setname sw false, MIfSet key false) :: (setname sw true, MIfSet key true) :: (ifname sw, MIf key) :: B
+                end)).
+Proof.
+  intros HR. eapply (ex_cont O).
+  2: { eapply (ex_yield O); [apply step_elem; reflexivity|apply ex_refl]. }
+  rewrite (step_macro _ _ (esc s_newif) s_newif (MPrim PNewif)); [|reflexivity|reflexivity|apply (prim_lookupg G fs); [exact HR|not_mname|reflexivity]].
+  cbn [invoke]. unfold newif_invoke, ros, set_input, lookup. cbn [input ups bottom read_optional_spaces].
+  change (is_space (esc (ifname sw))) with false. cbn iota. cbn [input].
+  unfold read_token. change (is_bgroup (esc (ifname sw))) with false. change (is_math (esc (ifname sw))) with false. cbn iota.
+  cbn [existsb filter]. change (is_elem (esc (ifname sw))) with false. change (tcat (esc (ifname sw)) =? CC_ESCAPE) with true. cbn iota. cbn [orb].
+  cbn [ups bottom ttext esc]. rewrite (Rfg_nonmname G fs U B _ HR (ifname_not_mname sw)).
+  destruct (findm (ifname sw) B); reflexivity.
+Qed.
+
+Lemma exec_setsw G fs U B sw b n r : Rfg G fs U B -> findm (setname sw b) B = Some (MIfSet (cellkey n sw) b) ->
+  exec (St (esc (setname sw b) :: r) U B) [] (St r U ((cellkey n sw, MCell b) :: B)).
+Proof.
+  intros HR Hl. eapply (ex_cont O); [|apply ex_refl].
+  rewrite (step_macro _ _ (esc (setname sw b)) (setname sw b) (MIfSet (cellkey n sw) b)); [reflexivity|reflexivity|reflexivity|].
+  now rewrite (Rfg_nonmname G fs U B _ HR (setname_not_mname sw b)).
+Qed.
+
+Lemma exec_switch G fs U B sw b n th el r : Rfg G fs U B ->
+  findm (ifname sw) B = Some (MIf (cellkey n sw)) -> findm (cellkey n sw) B = Some (MCell b) ->
+  (forall k, walks (print th) k k) -> (forall e, el = Some e -> forall k, walks (print e) k k) ->
+  exec (St (esc (ifname sw) :: print th ++ else_part el ++ esc s_fi :: r) U B) []
+       (St ((if b then print th else print (else_nodes el)) ++ r) U B).
+Proof.
+  intros HR H1 H2 Hth Hel. eapply (ex_cont O); [|apply ex_refl].
+  rewrite (step_macro _ _ (esc (ifname sw)) (ifname sw) (MIf (cellkey n sw))); [|reflexivity|reflexivity|now rewrite (Rfg_nonmname G fs U B _ HR (ifname_not_mname sw))].
+  cbn [invoke]. unfold cell_value. cbn [bottom]. rewrite H2.
+  pose proof (if_invoke_cond [] th el r b U B (Forall_nil _) Hth Hel) as Hi. cbn [app] in Hi. rewrite Hi. reflexivity.
+Qed.
+
 (* ---- the simulation on F2 ---- *)
 Lemma sim2 f : forall e out ns e' out',
   forallb f2_node ns = true -> eval f e out ns = Ok e' out' -> gsafe f e out ns = true ->
-  forall U B rest, Rfg good2 (frames e) U B -> safe_rest rest ->
+  forall U B rest, Rfg good2 (frames e) U B -> SwR (switches e) B -> safe_rest rest ->
   exists T U' B',
-    exec (St (print ns ++ rest) U B) T (St rest U' B') /\ Rfg good2 (frames e') U' B' /\ length U' = length U /\
+    exec (St (print ns ++ rest) U B) T (St rest U' B') /\ Rfg good2 (frames e') U' B' /\ SwR (switches e') B' /\ length U' = length U /\
     words_text (rev out') = words_text (rev out) ++ text_of T.
 Proof.
-  induction f as [|f IH]; intros e out ns e' out' HF Hev Hgs U B rest HR Hsafe; [discriminate Hev|].
+  induction f as [|f IH]; intros e out ns e' out' HF Hev Hgs U B rest HR HS Hsafe; [discriminate Hev|].
   destruct ns as [|n ns].
-  { rewrite eval_nil in Hev. injection Hev as <- <-. exists [], U, B. repeat split; [apply ex_refl|exact HR|now rewrite app_nil_r]. }
+  { rewrite eval_nil in Hev. injection Hev as <- <-. exists [], U, B. repeat split; [apply ex_refl|exact HR|exact HS|now rewrite app_nil_r]. }
   cbn [forallb] in HF. apply andb_true_iff in HF as [Hn Hns].
   destruct (eval_budget f e out n ns _ Hev) as [Hno|(budget & Hs)]; [exfalso; now apply (Hno e' out')|].
   assert (HR1 : Rfg good2 (frames (tick e budget)) U B) by exact HR.
@@ -2227,8 +2391,8 @@ Proof.
   destruct n; try discriminate Hn.
   - (* word *)
     rewrite (eval_word f e out ns budget Hs) in Hev. rewrite (gsafe_word f e out ns budget Hs) in Hgs.
-    destruct (IH _ _ _ _ _ Hns Hev Hgs U B rest HR1 Hsafe) as (T & U' & B' & Hex & HR' & Hlen & Htxt).
-    exists (wprint w ++ T), U', B'. repeat split; [|exact HR'|exact Hlen|].
+    destruct (IH _ _ _ _ _ Hns Hev Hgs U B rest HR1 HS Hsafe) as (T & U' & B' & Hex & HR' & HS' & Hlen & Htxt).
+    exists (wprint w ++ T), U', B'. repeat split; [|exact HR'|exact HS'|exact Hlen|].
     + eapply exec_trans; [apply exec_plain, plain_wprint|exact Hex].
     + rewrite Htxt, words_text_snoc, text_of_app, (text_of_plain _ (plain_wprint w)). now rewrite app_assoc.
   - (* group *)
@@ -2237,12 +2401,12 @@ Proof.
     apply andb_true_iff in Hgs as [Hg1 Hg2].
     destruct (eval f (with_frames (tick e budget) ([] :: frames (tick e budget))) out body) as [e2 out2| |] eqn:Eb; try discriminate Hev.
     rewrite print_group. cbn [app]. rewrite <- app_assoc. cbn [app].
-    destruct (IH _ _ _ _ _ Hn Eb Hg1 ([] :: U) B (eg :: print ns ++ rest) (Rfg_push good2 _ _ _ HR1) (conj eq_refl eq_refl))
-      as (T1 & U1 & B1 & Hex1 & HR1' & Hlen1 & Htxt1).
+    destruct (IH _ _ _ _ _ Hn Eb Hg1 ([] :: U) B (eg :: print ns ++ rest) (Rfg_push good2 _ _ _ HR1) HS (conj eq_refl eq_refl))
+      as (T1 & U1 & B1 & Hex1 & HR1' & HS1 & Hlen1 & Htxt1).
     destruct U1 as [|u1 U1]; [discriminate Hlen1|].
     assert (HR2 : Rfg good2 (frames (with_frames e2 (tl (frames e2)))) U1 B1) by (apply (Rfg_pop good2 _ u1); exact HR1').
-    destruct (IH _ _ _ _ _ Hns Hev Hg2 U1 B1 rest HR2 Hsafe) as (T2 & U2 & B2 & Hex2 & HR2' & Hlen2 & Htxt2).
-    exists ([prim_elem PBgroup] ++ T1 ++ [prim_elem PEgroup] ++ T2), U2, B2. repeat split; [|exact HR2'|cbn in Hlen1; lia|].
+    destruct (IH _ _ _ _ _ Hns Hev Hg2 U1 B1 rest HR2 HS1 Hsafe) as (T2 & U2 & B2 & Hex2 & HR2' & HS2 & Hlen2 & Htxt2).
+    exists ([prim_elem PBgroup] ++ T1 ++ [prim_elem PEgroup] ++ T2), U2, B2. repeat split; [|exact HR2'|exact HS2|cbn in Hlen1; lia|].
     + eapply exec_trans; [apply (exec_bgroup good2 _ _ _ _ HR1)|].
       eapply exec_trans; [exact Hex1|].
       eapply exec_trans; [apply (exec_egroup good2 _ _ _ _ _ HR1')|exact Hex2].
@@ -2265,8 +2429,8 @@ Proof.
                     (depth_Wl _ (good2_body_W m Hm) O) Hnoprim) as Hex0.
       change (MNew (S nparams) (Some (print dd)) (print body)) with (mean_of m) in Hex0.
       pose proof (Rfg_def_global good2 _ U B name m Hm Hun HR1) as HR0.
-      destruct (IH _ _ _ _ _ Hns Hev Hg2 U _ rest HR0 Hsafe) as (T & U' & B' & Hex & HR' & Hlen & Htxt).
-      exists ([prim_elem (PNewcommand false)] ++ T), U', B'. repeat split; [|exact HR'|exact Hlen|].
+      destruct (IH _ _ _ _ _ Hns Hev Hg2 U _ rest HR0 (SwR_add_mname _ _ name (mean_of m) HS) Hsafe) as (T & U' & B' & Hex & HR' & HS' & Hlen & Htxt).
+      exists ([prim_elem (PNewcommand false)] ++ T), U', B'. repeat split; [|exact HR'|exact HS'|exact Hlen|].
       + eapply exec_trans; [exact Hex0|exact Hex].
       + rewrite Htxt, text_of_app. reflexivity. }
     apply andb_true_iff in Hn as [Hnp Hbody]. apply Nat.leb_le in Hnp.
@@ -2279,17 +2443,17 @@ Proof.
     change (MDef (param_text nparams) (print body)) with (mean_of m) in Hex0.
     set (st := (if global then add_global else add_local) (mname name) (mean_of m) (St (print ns ++ rest) U B)) in *.
     assert (Hst : exists U0 B0, st = St (print ns ++ rest) U0 B0 /\ length U0 = length U /\
-                   Rfg good2 ((if global then def_global else def_local) name m (frames (tick e budget))) U0 B0).
+                   Rfg good2 ((if global then def_global else def_local) name m (frames (tick e budget))) U0 B0 /\ SwR (switches e) B0).
     { subst st. destruct global.
       - exists U, ((mname name, mean_of m) :: B). split; [reflexivity|]. split; [reflexivity|].
-        now apply Rfg_def_global.
+        split; [now apply Rfg_def_global|now apply SwR_add_mname].
       - pose proof (Rfg_def_local good2 _ U B name m Hm HR1) as Hl. cbv zeta in Hl.
         unfold add_local in *. cbn [ups] in *. destruct U as [|u U]; cbn [ups bottom set_ups set_bottom add_global input] in *.
-        + eexists [], _. split; [reflexivity|]. split; [reflexivity|exact Hl].
-        + eexists (_ :: U), B. split; [reflexivity|]. split; [reflexivity|exact Hl]. }
-    destruct Hst as (U0 & B0 & Est & Hlen0 & HR0). rewrite Est in Hex0.
-    destruct (IH _ _ _ _ _ Hns Hev Hg2 U0 B0 rest HR0 Hsafe) as (T & U' & B' & Hex & HR' & Hlen & Htxt).
-    exists ([prim_elem (PDef global)] ++ T), U', B'. repeat split; [|exact HR'|lia|].
+        + eexists [], _. split; [reflexivity|]. split; [reflexivity|]. split; [exact Hl|now apply SwR_add_mname].
+        + eexists (_ :: U), B. split; [reflexivity|]. split; [reflexivity|]. split; [exact Hl|exact HS]. }
+    destruct Hst as (U0 & B0 & Est & Hlen0 & HR0 & HS0). rewrite Est in Hex0.
+    destruct (IH _ _ _ _ _ Hns Hev Hg2 U0 B0 rest HR0 HS0 Hsafe) as (T & U' & B' & Hex & HR' & HS' & Hlen & Htxt).
+    exists ([prim_elem (PDef global)] ++ T), U', B'. repeat split; [|exact HR'|exact HS'|lia|].
     + eapply exec_trans; [exact Hex0|exact Hex].
     + rewrite Htxt, text_of_app. replace (text_of [prim_elem (PDef global)]) with (@nil tok) by (destruct global; reflexivity). reflexivity.
   - (* let *)
@@ -2302,11 +2466,13 @@ Proof.
     pose proof (Rfg_def_local good2 _ U B name m Hm HR1) as HR0. cbv zeta in HR0.
     set (st := add_local (mname name) (mean_of m) (St (print ns ++ rest) U B)) in *.
     assert (Hst : st = St (print ns ++ rest) (ups (add_local (mname name) (mean_of m) (St [] U B))) (bottom (add_local (mname name) (mean_of m) (St [] U B)))
-                  /\ length (ups (add_local (mname name) (mean_of m) (St [] U B))) = length U).
-    { subst st. unfold add_local, add_global, set_ups, set_bottom. cbn [ups bottom input]. destruct U; split; reflexivity. }
-    destruct Hst as [Est Hlen0]. rewrite Est in Hex0.
-    destruct (IH _ _ _ _ _ Hns Hev Hgs _ _ rest HR0 Hsafe) as (T & U' & B' & Hex & HR' & Hlen & Htxt).
-    exists ([prim_elem PLet] ++ T), U', B'. repeat split; [|exact HR'|lia|].
+                  /\ length (ups (add_local (mname name) (mean_of m) (St [] U B))) = length U
+                  /\ SwR (switches e) (bottom (add_local (mname name) (mean_of m) (St [] U B)))).
+    { subst st. unfold add_local, add_global, set_ups, set_bottom. cbn [ups bottom input].
+      destruct U; (split; [reflexivity|split; [reflexivity|]]); [now apply SwR_add_mname|exact HS]. }
+    destruct Hst as (Est & Hlen0 & HS0). rewrite Est in Hex0.
+    destruct (IH _ _ _ _ _ Hns Hev Hgs _ _ rest HR0 HS0 Hsafe) as (T & U' & B' & Hex & HR' & HS' & Hlen & Htxt).
+    exists ([prim_elem PLet] ++ T), U', B'. repeat split; [|exact HR'|exact HS'|lia|].
     + eapply exec_trans; [exact Hex0|exact Hex].
     + rewrite Htxt, text_of_app. reflexivity.
   - (* call *)
@@ -2324,9 +2490,9 @@ Proof.
     assert (Hlk : chain_get U B (mname name) = Some (mean_of m)) by (rewrite (Rfg_lookup good2 _ _ _ name HR1), El; reflexivity).
     assert (Hsafe' : safe_rest (print ns ++ rest)) by (apply safe_print; [now apply f2_Wl|exact Hsafe]).
     destruct (exec_call2 U B name m opt args (print ns ++ rest) Hm Hlk Ho Ha Elen Hom Hsafe') as [Hex0 HA].
-    destruct (IH _ _ _ _ _ (fa_f2l _ HA) Eb Hg1 U B (print ns ++ rest) HR1 Hsafe') as (T1 & U1 & B1 & Hex1 & HR1' & Hlen1 & Htxt1).
-    destruct (IH _ _ _ _ _ Hns Hev Hg2 U1 B1 rest HR1' Hsafe) as (T2 & U2 & B2 & Hex2 & HR2' & Hlen2 & Htxt2).
-    exists (T1 ++ T2), U2, B2. repeat split; [|exact HR2'|lia|].
+    destruct (IH _ _ _ _ _ (fa_f2l _ HA) Eb Hg1 U B (print ns ++ rest) HR1 HS Hsafe') as (T1 & U1 & B1 & Hex1 & HR1' & HS1 & Hlen1 & Htxt1).
+    destruct (IH _ _ _ _ _ Hns Hev Hg2 U1 B1 rest HR1' HS1 Hsafe) as (T2 & U2 & B2 & Hex2 & HR2' & HS2 & Hlen2 & Htxt2).
+    exists (T1 ++ T2), U2, B2. repeat split; [|exact HR2'|exact HS2|lia|].
     + eapply (exec_trans _ []); [exact Hex0|]. eapply exec_trans; [exact Hex1|exact Hex2].
     + rewrite Htxt2, Htxt1, text_of_app. now rewrite app_assoc.
   - (* conditional *)
@@ -2337,12 +2503,23 @@ Proof.
     destruct (eval f (tick e budget) out br) as [e2 out2| |] eqn:Eb; try discriminate Hev.
     rewrite print_cond. rewrite <- !app_assoc. cbn [app].
     assert (Hel' : forall e0, els = Some e0 -> forallb f2_node e0 = true) by (intros e0 ->; exact Hel).
-    destruct (exec_cond good2 _ U B t thn els (print ns ++ rest) HR1 Ht (walks_Wl _ (f2_Wl _ Hth))
-               (fun e0 He0 => walks_Wl _ (f2_Wl _ (Hel' e0 He0))) (tick e budget) eq_refl) as (Xt & X & HX & HXe & Hex0).
+    assert (Hex0' : exists Xt X, Forall (fun x => is_elem x = true) X /\ (forall r', exec (St (Xt ++ r') U B) X (St r' U B)) /\
+              exec (St (print_test t ++ print thn ++ else_part els ++ esc s_fi :: print ns ++ rest) U B) []
+                   (St ((if eval_test (tick e budget) t then Xt ++ print thn else print (else_nodes els)) ++ print ns ++ rest) U B)).
+    { destruct t as [| |a0 r0 b0|a0| |sw| | |] eqn:Et; try discriminate Ht;
+        try (apply (exec_cond good2 _ U B _ thn els (print ns ++ rest) HR1 Ht (walks_Wl _ (f2_Wl _ Hth))
+                      (fun e0 He0 => walks_Wl _ (f2_Wl _ (Hel' e0 He0))) (tick e budget) eq_refl)).
+      (* a switch: declared (gdef_safe), so its three macros and its cell are in the bottom frame *)
+      exists [], []. split; [constructor|]. split; [intros r'; apply ex_refl|].
+      pose proof (HS sw) as Hsw. cbn [eval_test]. change (switches (tick e budget)) with (switches e) in *.
+      destruct (alookup sw (switches e)) as [bsw|]; [|discriminate Hdecl]. destruct Hsw as (n & H1 & _ & _ & H4).
+      cbn [print_test app]. exact (exec_switch good2 _ U B sw bsw n thn els (print ns ++ rest) HR1 H1 H4 (walks_Wl _ (f2_Wl _ Hth))
+                                      (fun e0 He0 => walks_Wl _ (f2_Wl _ (Hel' e0 He0)))). }
+    destruct Hex0' as (Xt & X & HX & HXe & Hex0).
     assert (Hbr : forallb f2_node br = true) by (subst br; destruct (eval_test (tick e budget) t); [exact Hth|destruct els as [x|]; [now apply Hel'|reflexivity]]).
-    destruct (IH _ _ _ _ _ Hbr Eb Hg1 U B (print ns ++ rest) HR1 (safe_print _ _ (f2_Wl _ Hns) Hsafe)) as (T1 & U1 & B1 & Hex1 & HR1' & Hlen1 & Htxt1).
-    destruct (IH _ _ _ _ _ Hns Hev Hg2 U1 B1 rest HR1' Hsafe) as (T2 & U2 & B2 & Hex2 & HR2' & Hlen2 & Htxt2).
-    exists ((if eval_test (tick e budget) t then X else []) ++ T1 ++ T2), U2, B2. repeat split; [|exact HR2'|lia|].
+    destruct (IH _ _ _ _ _ Hbr Eb Hg1 U B (print ns ++ rest) HR1 HS (safe_print _ _ (f2_Wl _ Hns) Hsafe)) as (T1 & U1 & B1 & Hex1 & HR1' & HS1 & Hlen1 & Htxt1).
+    destruct (IH _ _ _ _ _ Hns Hev Hg2 U1 B1 rest HR1' HS1 Hsafe) as (T2 & U2 & B2 & Hex2 & HR2' & HS2 & Hlen2 & Htxt2).
+    exists ((if eval_test (tick e budget) t then X else []) ++ T1 ++ T2), U2, B2. repeat split; [|exact HR2'|exact HS2|lia|].
     + eapply (exec_trans _ []); [exact Hex0|]. subst br. destruct (eval_test (tick e budget) t).
       * rewrite <- app_assoc. eapply exec_trans; [apply HXe|eapply exec_trans; [exact Hex1|exact Hex2]].
       * cbn [app]. replace (print (else_nodes els)) with (print match els with Some x => x | None => [] end) by (destruct els; reflexivity).
@@ -2367,11 +2544,59 @@ Proof.
     { subst br. unfold case_branch. destruct ((0 <=? z) && (z <? Z.of_nat (length (b0 :: r))))%Z.
       - generalize (Z.to_nat z). clear -HbsF. induction HbsF as [|b l Hb _ IHl]; intros [|k]; try reflexivity; [exact Hb|apply IHl].
       - destruct els as [x|]; [now apply Hel'|reflexivity]. }
-    destruct (IH _ _ _ _ _ Hbr Eb Hg1 U B (print ns ++ rest) HR1 (safe_print _ _ (f2_Wl _ Hns) Hsafe)) as (T1 & U1 & B1 & Hex1 & HR1' & Hlen1 & Htxt1).
-    destruct (IH _ _ _ _ _ Hns Hev Hg2 U1 B1 rest HR1' Hsafe) as (T2 & U2 & B2 & Hex2 & HR2' & Hlen2 & Htxt2).
-    exists (X ++ T1 ++ T2), U2, B2. repeat split; [|exact HR2'|lia|].
+    destruct (IH _ _ _ _ _ Hbr Eb Hg1 U B (print ns ++ rest) HR1 HS (safe_print _ _ (f2_Wl _ Hns) Hsafe)) as (T1 & U1 & B1 & Hex1 & HR1' & HS1 & Hlen1 & Htxt1).
+    destruct (IH _ _ _ _ _ Hns Hev Hg2 U1 B1 rest HR1' HS1 Hsafe) as (T2 & U2 & B2 & Hex2 & HR2' & HS2 & Hlen2 & Htxt2).
+    exists (X ++ T1 ++ T2), U2, B2. repeat split; [|exact HR2'|exact HS2|lia|].
     + eapply (exec_trans _ []); [exact Hex0|]. eapply exec_trans; [apply HXe|eapply exec_trans; [exact Hex1|exact Hex2]].
     + rewrite Htxt2, Htxt1, !text_of_app, (text_of_elems X HX). cbn [app]. now rewrite app_assoc.
+  - (* \zs..true / \zs..false *)
+    rewrite (eval_setsw f e out ns budget Hs) in Hev. rewrite (gsafe_setsw f e out ns budget Hs) in Hgs.
+    apply andb_true_iff in Hgs as [Hdecl Hg2]. change (switches (tick e budget)) with (switches e) in *.
+    pose proof (HS name) as Hsw. destruct (alookup name (switches e)) as [b0|] eqn:Eal; [|discriminate Hdecl].
+    destruct Hsw as (n & H1 & H2 & H3 & H4).
+    assert (Hset : findm (setname name b) B = Some (MIfSet (cellkey n name) b)) by (destruct b; assumption).
+    pose proof (exec_setsw good2 _ U B name b n (print ns ++ rest) HR1 Hset) as Hex0.
+    assert (HR0 : Rfg good2 (frames (with_switches (tick e budget) (aset name b (switches e)))) U ((cellkey n name, MCell b) :: B)).
+    { destruct HR1 as (mfs & mg & E & HF & [HB1 HB2] & Hok). exists mfs, mg. split; [exact E|]. split; [exact HF|]. split; [|exact Hok].
+      split.
+      - intros id. cbn [findm]. change (seqb (mname id) (cellkey n name)) with false. apply HB1.
+      - intros k Hk Hsw. cbn [findm]. destruct (seqb k (cellkey n name)) eqn:Ek; [apply seqb_eq in Ek; subst k; discriminate Hsw|now apply HB2]. }
+    pose proof (SwR_set _ _ name b0 b n HS Eal H1) as HS0.
+    destruct (IH _ _ _ _ _ Hns Hev Hg2 U _ rest HR0 HS0 Hsafe) as (T & U' & B' & Hex & HR' & HS' & Hlen & Htxt).
+    exists T, U', B'. repeat split; [|exact HR'|exact HS'|exact Hlen|exact Htxt].
+    cbn [print_node app]. eapply (exec_trans _ []); [exact Hex0|exact Hex].
+  - (* \newif *)
+    rewrite (eval_newsw f e out ns budget Hs) in Hev. rewrite (gsafe_newsw f e out ns budget Hs) in Hgs.
+    change (switches (tick e budget)) with (switches e) in *.
+    pose proof (exec_newif good2 _ U B name (print ns ++ rest) HR1) as Hex0.
+    pose proof (HS name) as Hsw. unfold new_switch in *.
+    destruct (alookup name (switches e)) as [b0|] eqn:Eal.
+    + destruct Hsw as (n & H1 & _). rewrite H1 in Hex0.
+      destruct (IH _ _ _ _ _ Hns Hev Hgs U B rest HR1 HS Hsafe) as (T & U' & B' & Hex & HR' & HS' & Hlen & Htxt).
+      exists ([prim_elem PNewif] ++ T), U', B'. repeat split; [|exact HR'|exact HS'|exact Hlen|].
+      * cbn [print_node app]. eapply (exec_trans _ [prim_elem PNewif]); [exact Hex0|exact Hex].
+      * rewrite Htxt. reflexivity.
+    + rewrite Hsw in Hex0. cbv zeta in Hex0.
+      set (key := cellkey (N.of_nat (length B)) name) in *.
+      set (B0 := (key, MCell false) :: (setname name false, MIfSet key false) :: (setname name true, MIfSet key true) :: (ifname name, MIf key) :: B) in *.
+      assert (HR0 : Rfg good2 (frames (with_switches (tick e budget) (aset name false (switches e)))) U B0).
+      { destruct HR1 as (mfs & mg & E & HF & [HB1 HB2] & Hok). exists mfs, mg. split; [exact E|]. split; [exact HF|]. split; [|exact Hok].
+        split.
+        - intros id. subst B0. cbn [findm]. change (seqb (mname id) key) with false.
+          replace (seqb (mname id) (setname name false)) with false by reflexivity.
+          replace (seqb (mname id) (setname name true)) with false by reflexivity.
+          change (seqb (mname id) (ifname name)) with false. apply HB1.
+        - intros k Hk Hsw'. subst B0. cbn [findm].
+          destruct (seqb k key) eqn:E1; [apply seqb_eq in E1; subst k; discriminate Hsw'|].
+          destruct (seqb k (setname name false)) eqn:E2; [apply seqb_eq in E2; subst k; discriminate Hsw'|].
+          destruct (seqb k (setname name true)) eqn:E3; [apply seqb_eq in E3; subst k; discriminate Hsw'|].
+          destruct (seqb k (ifname name)) eqn:E4; [apply seqb_eq in E4; subst k; discriminate Hsw'|].
+          now apply HB2. }
+      pose proof (SwR_new _ B name HS Eal) as HS0. cbv zeta in HS0. fold key in HS0. fold B0 in HS0.
+      destruct (IH _ _ _ _ _ Hns Hev Hgs U B0 rest HR0 HS0 Hsafe) as (T & U' & B' & Hex & HR' & HS' & Hlen & Htxt).
+      exists ([prim_elem PNewif] ++ T), U', B'. repeat split; [|exact HR'|exact HS'|exact Hlen|].
+      * cbn [print_node app]. eapply (exec_trans _ [prim_elem PNewif]); [exact Hex0|exact Hex].
+      * rewrite Htxt. reflexivity.
 Qed.
 
 Theorem engine_simulates_F2 fuel p e out :
@@ -2384,7 +2609,7 @@ Theorem engine_simulates_F2 fuel p e out :
     (forall k, (forall id, k <> mname id) -> swkey k = false -> findm k (bottom st') = findm k base_frame).
 Proof.
   intros HF Hden Hsafe. unfold in_F2 in HF. unfold den in Hden. unfold gdef_safe in Hsafe.
-  destruct (sim2 fuel empty_env [] p e out HF Hden Hsafe [] base_frame [] (Rfg_init good2) I) as (T & U' & B' & Hex & HR & Hlen & Htxt).
+  destruct (sim2 fuel empty_env [] p e out HF Hden Hsafe [] base_frame [] (Rfg_init good2) SwR_init I) as (T & U' & B' & Hex & HR & HS & Hlen & Htxt).
   destruct U' as [|u U']; [|discriminate Hlen]. rewrite app_nil_r in Hex.
   destruct (exec_run _ _ _ Hex eq_refl) as (fuel' & Hrun).
   exists fuel', (St [] [] B'), T. split; [exact (Hrun [])|]. split; [cbn in Htxt; now rewrite Htxt|]. split; [reflexivity|].
